@@ -4,6 +4,9 @@ import os
 import subprocess
 import time
 
+import random
+
+import towerlib as T
 from common import (BIN, ToolError, Verdict, build, log, seed, tlc, unwrap_print, validate_trace, workdir,
                     write_evidence)
 
@@ -123,11 +126,26 @@ def main(tier, replay=None):
     sd = seed()
     for i, (n, ops) in enumerate(rnd):
         impl_to_spec(wd, n, ops, sd * 1000 + i, verdict, stats)
+    # the same reference model inside the tower: Trace_Tower.tla keeps wCache / rIndex as TxIndex.tla lists and compares
+    # the look-ups the real Watcher / Responder report (verif hook) after every chain event of reorg-heavy histories
+    build(["tower_rig"])
+    rng = random.Random(sd)
+    camp = T.Campaign(wd)
+    sc = T.fam_reorg(rng, deep=(tier != "quick"))[::(3 if tier == "quick" else 1)] + T.fam_random(rng, 8 if tier == "quick" else 60)
+    camp.run(sc, "c19tower")
+    for t in camp.tags:
+        if t["prop"] == "C19":
+            verdict.disagree(t["what"], t["event"]["act"], "tower",
+                             "C19 inside the tower: %s after %s (scenario %s, trace %s line %d)" %
+                             (t["what"], t["event"]["act"], t["scenario"]["name"], t["trace"], t["line"]),
+                             {"scenario": t["scenario"], "tag": [t["line"], t["prop"], t["what"]], "event": t["event"]})
+    stats["tower_scenarios"] = camp.scenarios
+    stats["tower_events"] = camp.events
     nviol = verdict.finish()
     write_evidence(PID, tier, "model_checking", {
         "states": stats["states"],
         "transitions": stats["transitions"],
-        "traces_validated_against_impl": stats["behaviours"] + stats["traces"],
+        "traces_validated_against_impl": stats["behaviours"] + stats["traces"] + stats["tower_scenarios"],
         "evaluations": stats["behaviours"] + stats["traces"],
         "distinct_nontrivial": stats["behaviours"],
         "rule": "spec->impl: every behaviour (sequence of connect(key set)/disconnect of length MaxOps) of MC_TxIndex is "
@@ -141,6 +159,8 @@ def main(tier, replay=None):
         "random_traces": stats["traces"],
         "random_trace_events": stats["events"],
         "random_trace_disconnects": stats["disconnects"],
+        "tower_scenarios_with_reorgs": stats["tower_scenarios"],
+        "tower_events_with_lookup_comparison": stats["tower_events"],
         "known_findings_hit": verdict.known_hits,
         "samples": stats["samples"][:4],
     }, [
